@@ -821,6 +821,19 @@ pub fn run_c06(cfg: &Cfg) {
             need_case(&mut out, &mut pair, &b);
         }
     }
+    // fewer than 16 bytes buffered (a short read that ends inside the fixed header or inside the length of the field
+    // array): the receive loop is told to go on reading up to 16
+    for le in [true, false] {
+        let u = |v: u32| if le { v.to_le_bytes() } else { v.to_be_bytes() };
+        let mut b = vec![if le { b'l' } else { b'B' }, 4, 0, 1];
+        b.extend_from_slice(&u(24));
+        b.extend_from_slice(&u(0x01020304));
+        b.extend_from_slice(&u(40));
+        for k in 0..16usize {
+            out.hit("need_case_short_prefix");
+            need_case(&mut out, &mut pair, &b[..k]);
+        }
+    }
     // single-fault corruptions of the header region of pooled messages: every byte +1 -1 -2 -3 +4 -4 ^0x80 :=0/1 and
     // truncation at every position (an understated / overstated length word by 1..4, a flipped type character, ...);
     // over the cap: a uniform sample over the WHOLE header region
